@@ -1,4 +1,4 @@
-"""C07 -- import tidying never changes what a name means (R07.1-R07.7)."""
+"""C07 -- import tidying never changes what a name means (R07.1-R07.8)."""
 from __future__ import annotations
 
 import ast
@@ -19,7 +19,7 @@ EXPLANATION = (
     "visit<Name> method on the base visitor (dispatch is by class name).  R07.5: the used-name recorder adds every "
     "dotted prefix of a used primary (the one-time selector needs prefix-closure).  R07.6: in the star-import branch the "
     "stateful selector is consulted only until its first acceptance.  R07.7: a from-import is identified by (module_name, level): "
-    "module_name equality between two infos is always paired with level equality, and a rebuilt FromImport keeps the level of its source.  Idempotence, re-emitted text and sort keys "
+    "module_name equality between two infos is always paired with level equality, and a rebuilt FromImport keeps the level of its source.  R07.8: `import a.b` is covered by `import a` only on a dotted prefix that ends in the dot.  Idempotence, re-emitted text and sort keys "
     "are not decided."
 )
 ASSUMPTIONS = ["scope-opening constructors without a handler in the finder (async def, lambda, comprehensions) only make more names count as used: conservative, not armed"]
@@ -32,6 +32,9 @@ GLOBAL = "rope.refactor.importutils.module_imports._GlobalUnboundNameFinder"
 def check(ctx, res) -> None:
     _check_main(ctx, res)
     _from_import_identity_rule(ctx, res)
+    from .common import prefix_boundary_rule
+
+    prefix_boundary_rule(ctx, res, "R07.8", ["rope.refactor.importutils.actions.AddingVisitor.visitNormalImport"])
 
 
 def _check_main(ctx, res) -> None:
@@ -249,7 +252,7 @@ def _check_main(ctx, res) -> None:
                     "judged unused and removed -- the name silently resolves to the star module's object")
 
 
-def _from_import_identity_rule(ctx, res) -> None:
+def _from_import_identity_rule(ctx, res, rule: str = "R07.7") -> None:
     """R07.7: a from-import is identified by (module_name, level).  (a) wherever two import infos are compared by
     module_name, the same two operands are also compared by level in the same conjunction (or a dominating test);
     (b) wherever a FromImport is rebuilt from another info's module_name, that info's level is passed along."""
@@ -286,7 +289,7 @@ def _from_import_identity_rule(ctx, res) -> None:
                     for nd in cfg.node_containing(x):
                         if any(is_level_cmp(t) and pol for t, pol in cfg.guards(nd.id)):
                             ok = True
-                res.add("R07.7", f"{short}|same-module#{ka}", ok, f"{f.unit.rel}:{x.lineno}",
+                res.add(rule, f"{short}|same-module#{ka}", ok, f"{f.unit.rel}:{x.lineno}",
                         "module_name equality is paired with level equality of the same operands" if ok else
                         f"{short} treats two from-imports as the same module when their module_name is equal, without comparing .level: "
                         "`from . import a` and `from .. import b` (or `from .util import x` and `from util import y`) are merged into one statement, so a "
@@ -299,9 +302,9 @@ def _from_import_identity_rule(ctx, res) -> None:
                 src = norm(x.args[0].value)
                 lvl = x.args[1] if len(x.args) > 1 else next((k.value for k in x.keywords if k.arg == "level"), None)
                 ok = isinstance(lvl, ast.Attribute) and lvl.attr == "level" and norm(lvl.value) == src
-                res.add("R07.7", f"{short}|rebuild#{kb}", ok, f"{f.unit.rel}:{x.lineno}",
+                res.add(rule, f"{short}|rebuild#{kb}", ok, f"{f.unit.rel}:{x.lineno}",
                         "the rebuilt from-import keeps the level of the statement it replaces" if ok else
                         f"{short} rebuilds a from-import from {src}.module_name but passes {ast.unparse(lvl) if lvl is not None else 'no level'} as its level: "
                         "a relative import is re-emitted with a different number of leading dots and resolves to another module", function=f.qualname)
-    res.floor("R07.7", "module_name comparisons between import infos", na, 1)
-    res.floor("R07.7", "from-imports rebuilt from another info", nb, 5)
+    res.floor(rule, "module_name comparisons between import infos", na, 1)
+    res.floor(rule, "from-imports rebuilt from another info", nb, 5)
